@@ -115,7 +115,17 @@ impl Scalar {
         shadow_of(self.term())
     }
     pub fn to_bytes(&self) -> [u8; 32] {
-        token::<32>(K_SCALAR, self.term())
+        let t = self.term();
+        if let Node::Const(c) = node_of(t) {
+            // a constant is its own canonical little-endian encoding: code that inspects the bytes of a concrete scalar
+            // (bit ladders, small-value fast paths) then runs on real data; `from_bytes` reads such bytes back
+            let mut b = [0u8; 32];
+            b.copy_from_slice(&fq::to_le_bytes(&c)[..32]);
+            if untoken(&b).is_none() {
+                return b;
+            }
+        }
+        token::<32>(K_SCALAR, t)
     }
     pub fn from_bytes(bytes: &[u8; 32]) -> CtOption<Scalar> {
         match untoken(bytes) {
